@@ -81,7 +81,7 @@ func newCluster() (*cluster, error) {
 		cl.conns = append(cl.conns, conn)
 		cl.ids = append(cl.ids, conn.ID())
 	}
-	ctx, cancel := context.WithTimeout(context.Background(), 20*time.Second)
+	ctx, cancel := context.WithTimeout(context.Background(), 60*time.Second)
 	defer cancel()
 	for i := 0; i < maxConns; i++ {
 		for j := i + 1; j < maxConns; j++ {
